@@ -10,6 +10,7 @@ def jobs():
 
 PROP = {
     "id": "C02",
+    "claimed": False,
     "jobs": jobs,
     "bounds": {"quick": "wip", "thorough": "wip"},
     "outside": [],
